@@ -29,4 +29,5 @@ def run(src, tier, seed):
         res.bad(r, f.key, f.where, f.msg)
     if not hits:
         res.ok(r, 'no floating-point detour in src/tsolvers/stpsolver; Converter<SafeInt>::getValue range-checked')
+    satrules.interface_terms_rule(res, fx)
     return res
